@@ -174,6 +174,7 @@ func (v *Verifier) verifyOne(b *Block, bd map[string]int64, variant int) (tr *Ta
 	ex := v.base.Clone()
 	v.mu.Unlock()
 	ex.target = name
+	ex.targetPkg = b.Pkg
 	tr.ex = ex
 	defer func() {
 		tr.Seconds = time.Since(start).Seconds()
@@ -236,7 +237,11 @@ func (v *Verifier) verifyOne(b *Block, bd map[string]int64, variant int) (tr *Ta
 			g := ex.inline(clauseFn2(v, b, c), nil, pk, nil, recv, args, st, &ast.CallExpr{}).(*Term)
 			ex.suppress--
 			ex.assume(st, g)
-			ex.usedContracts["lemma "+b.PkgName+"."+c.ID] = true
+			if v.prog.Axioms[b.PkgName+"."+c.ID] {
+				ex.assumptions["AXIOM "+b.PkgName+"."+c.ID+" (assumed, see the contract file)"] = true
+			} else {
+				ex.usedContracts["lemma "+b.PkgName+"."+c.ID] = true
+			}
 		}
 	}
 	// carve-outs: the main variant excludes every known condition, variant k assumes condition k
@@ -354,7 +359,9 @@ func (v *Verifier) verifyOne(b *Block, bd map[string]int64, variant int) (tr *Ta
 		applyUses(st, recv, args)
 		pre := st.fork(st.pc)
 		ex.oldState = pre
+		ex.recursing = &recursion{blk: b, fi: fi, entry: append([]Value(nil), args...)}
 		rv := ex.inline(fi, nil, fi.Pkg, nil, recv, args, st, site)
+		ex.recursing = nil
 		var res []Value
 		switch x := rv.(type) {
 		case nil:
